@@ -1880,3 +1880,132 @@ pub fn group_size_extensions() -> Vec<W> {
     }
     v
 }
+
+/// ServerDHParams whose three integers stand in the relations a "sanity check" would look for: Ys in
+/// {0, 1, 2, g, p-2, p-1, p, p+1, p/2}, g in {0, 1, 2, 5, p-1, p}, p odd / even, all-ff, with and without
+/// leading zero octets on each field, field sizes 1..257.
+pub fn dh_relations() -> Vec<W> {
+    fn be(mut x: Vec<u8>, pad: usize) -> Vec<u8> {
+        let mut v = vec![0u8; pad];
+        v.append(&mut x);
+        v
+    }
+    fn add(p: &[u8], d: i32) -> Vec<u8> {
+        let mut v = p.to_vec();
+        let mut carry = d;
+        for b in v.iter_mut().rev() {
+            let t = *b as i32 + carry;
+            *b = t.rem_euclid(256) as u8;
+            carry = t.div_euclid(256);
+            if carry == 0 {
+                break;
+            }
+        }
+        v
+    }
+    fn half(p: &[u8]) -> Vec<u8> {
+        let mut v = Vec::with_capacity(p.len());
+        let mut c = 0u16;
+        for &b in p {
+            let t = (c << 8) | b as u16;
+            v.push((t >> 1) as u8);
+            c = t & 1;
+        }
+        v
+    }
+    let mut out = Vec::new();
+    let primes: Vec<Vec<u8>> = vec![
+        vec![0x17],
+        vec![0x00, 0x17],
+        vec![0xff, 0xfb],
+        vec![0x01, 0x00, 0x01],
+        (0..32u32).map(|i| if i == 31 { 0xe3 } else { 0xff - i as u8 }).collect(),
+        vec![0xff; 256],
+        (0..257u32).map(|i| if i == 0 { 0 } else if i == 256 { 0x6b } else { (i * 7 % 256) as u8 | 0x80 }).collect(),
+        vec![0x00, 0x00, 0x10],
+    ];
+    for p in &primes {
+        let gs: Vec<Vec<u8>> = vec![vec![2], vec![5], vec![0], vec![1], add(p, -1), p.clone(), vec![0, 2]];
+        let ys: Vec<Vec<u8>> = vec![vec![0], vec![1], vec![2], add(p, -2), add(p, -1), p.clone(), add(p, 1), half(p), be(add(p, -1), 1), be(vec![1], p.len().saturating_sub(1)), add(p, -1)[p.iter().take_while(|b| **b == 0).count().min(p.len() - 1)..].to_vec()];
+        for (gi, g) in gs.iter().enumerate() {
+            for (yi, y) in ys.iter().enumerate() {
+                if gi > 1 && yi > 5 && p.len() > 3 {
+                    continue;
+                }
+                let mut w = W::new();
+                for f in [p, g, y] {
+                    w.block(2, "dh_len", |w| {
+                        w.bytes(f);
+                    });
+                }
+                out.push(w);
+            }
+        }
+    }
+    out
+}
+
+/// RFC 6962 (v1) SCT entries whose bytes also read as an RFC 9162 (CT v2) TransItem filling the entry exactly:
+/// `type(2)=3|4, log id<1>, timestamp(8), extensions<2>, signature<2>`. Found by solving the two layouts against
+/// each other: the v2 length fields are written into bytes that are opaque for v1 (log id, timestamp, extension
+/// and signature contents) or coincide with v1 fields of the same value. A decoder that tries the successor
+/// layout first changes its answer for exactly these.
+pub fn sct_v2_polyglots() -> Vec<W> {
+    let mut out = Vec::new();
+    for ty in [3u8, 4] {
+        for e1 in [0usize, 4, 40] {
+            for n in [0usize, 8, 71, 300, 1025] {
+                let len = 47 + e1 + n;
+                let opaque = |p: usize| (1..41).contains(&p) || (43..43 + e1).contains(&p) || (43 + e1..45 + e1).contains(&p) || p >= 47 + e1;
+                // v1 entry content
+                let mut base: Vec<u8> = Vec::with_capacity(len);
+                base.push(0);
+                base.extend((0..32u8).map(|i| 0x1d + i));
+                base.extend([0, 0, 1, 0x60, 0x11, 0x22, 0x33, 0x44]);
+                base.extend([(e1 >> 8) as u8, e1 as u8]);
+                base.extend((0..e1).map(|i| 0xe7u8.wrapping_add(i as u8)));
+                base.extend([4, 3]);
+                base.extend([(n >> 8) as u8, n as u8]);
+                base.extend((0..n).map(|i| 0x30u8.wrapping_add((i % 200) as u8)));
+                debug_assert_eq!(base.len(), len);
+                for d in 0..=60usize {
+                    let p = 11 + d;
+                    if p + 2 > len || 3 + d > len {
+                        continue;
+                    }
+                    for e2 in 0..=(len - p - 2) {
+                        let q = p + 2 + e2;
+                        if q + 2 > len {
+                            continue;
+                        }
+                        let s2 = len - q - 2;
+                        // keep a spread of solutions per (e1, n, d)
+                        if e2 > 4 && s2 > 4 && !(e2 % 97 == 5 && d % 4 == 0) {
+                            continue;
+                        }
+                        let writes = [(1usize, ty), (2, d as u8), (p, (e2 >> 8) as u8), (p + 1, e2 as u8), (q, (s2 >> 8) as u8), (q + 1, s2 as u8)];
+                        if !writes.iter().all(|&(pos, val)| opaque(pos) || base[pos] == val) {
+                            continue;
+                        }
+                        let mut b = base.clone();
+                        for &(pos, val) in &writes {
+                            if opaque(pos) {
+                                b[pos] = val;
+                            }
+                        }
+                        // later writes must not undo earlier ones
+                        if !writes.iter().all(|&(pos, val)| b[pos] == val) {
+                            continue;
+                        }
+                        let mut w = W::new();
+                        w.block(2, "sct_len", |w| {
+                            w.bytes(&b);
+                        });
+                        out.push(w);
+                    }
+                }
+            }
+        }
+    }
+    out
+}
